@@ -18,6 +18,8 @@ pub mod functions;
 mod magic;
 pub mod objects;
 mod resolvers;
+#[cfg(feature = "verif-hooks")]
+pub mod verif;
 
 #[cfg(feature = "chrono")]
 mod duration;
